@@ -1,10 +1,18 @@
 #!/bin/sh
-# regenerate coq/_CoqProject and coq/Makefile from the files present
+# regenerate coq/_CoqProject and coq/Makefile from the files present (safe under
+# concurrent invocation: serialised with flock, temp files are unique)
 cd "$(dirname "$0")/../coq" || exit 1
+exec 9>.mkcoqproject.lock
+flock 9
+tmp=$(mktemp ./_CoqProject.XXXXXX) || exit 1
 {
   echo "-Q theories HV"
   echo "-arg -w -arg -notation-overridden,-deprecated-hint-without-locality,-deprecated-instance-without-locality"
   find theories -name '*.v' | LC_ALL=C sort
-} > _CoqProject.new
-if ! cmp -s _CoqProject.new _CoqProject; then mv _CoqProject.new _CoqProject; else rm _CoqProject.new; fi
-if [ ! -f Makefile ] || [ _CoqProject -nt Makefile ]; then coq_makefile -f _CoqProject -o Makefile >/dev/null; fi
+} > "$tmp"
+if ! cmp -s "$tmp" _CoqProject; then mv "$tmp" _CoqProject; else rm -f "$tmp"; fi
+if [ ! -f Makefile ] || [ _CoqProject -nt Makefile ] || ! grep -q "theories" Makefile.conf 2>/dev/null; then
+  mk=$(mktemp ./Makefile.XXXXXX)
+  coq_makefile -f _CoqProject -o "$mk" >/dev/null && mv "$mk" Makefile && mv "$mk.conf" Makefile.conf
+fi
+exit 0
